@@ -395,6 +395,10 @@ class _StickySink:
         """Register a session via the callback; stash the minted token for the response."""
         token = self._open_callback(state, ttl)
         self.mint_token = token
+        # A session opened after a close in the same request supersedes that
+        # close: the response must announce only the new token, otherwise the
+        # client applies VGI-Session-Close last and drops the token it just got.
+        self.closed = False
         # _open_callback set _current_session_context — capture the new id
         # from there. We could equally have _open_callback return it, but
         # the contextvar is the single source of truth right after open.
@@ -407,6 +411,8 @@ class _StickySink:
         """Close the bound session via the callback; signal the response middleware."""
         self._close_callback()
         self.closed = True
+        # A token minted earlier in this request now names a closed session.
+        self.mint_token = None
 
 
 # ---------------------------------------------------------------------------
